@@ -57,6 +57,10 @@ class CircuitCarrier:
         from hippolyzer.lib.base.message.msgtypes import PacketFlags
         m = Message("CompletePingCheck", Block("PingID", PingID=1), direction=Direction.OUT,
                     packet_id=act["k"] if act["n"] == "Send" else None)
+        if act["n"] == "Send" and act["k"] % 3 == 0:
+            # every third endpoint packet is a PacketAck of its own (for a packet of the other direction that the
+            # proxy did not inject): it occupies a wire ID like any other forwarded packet
+            m = Message("PacketAck", Block("Packets", ID=1), direction=Direction.OUT, packet_id=act["k"])
         if act["n"] == "Send" and act["k"] % 2:
             # the translation does not depend on the packet's flags: odd IDs travel as retransmissions
             # (also when it is the proxy's first sight of them: the original was lost before the proxy)
